@@ -26,7 +26,7 @@ pub fn kind_of(f: &Frame) -> &'static str {
     }
 }
 
-pub fn run_one(a: &Args, seed: u64, w: &mut NdWriter) -> RunStats {
+pub fn run_one(a: &Args, seed: u64, w: &mut NdWriter, id_base: &mut usize) -> RunStats {
     let n = a.usize("n", 4);
     let mut cfg = RigCfg::new(n);
     if let Some(s) = a.list_u32("stakes") {
@@ -48,7 +48,7 @@ pub fn run_one(a: &Args, seed: u64, w: &mut NdWriter) -> RunStats {
     let mut rng = Rng::new(seed);
     let honest: Vec<usize> = (0..n).filter(|i| !absent.contains(i)).collect();
     w.write(&json!({"t":"reset","n":n,"stakes":cfg.stakes,"honest":honest,"seed":seed}));
-    let mut rig = Rig::new(cfg);
+    let mut rig = Rig::with_base(cfg, *id_base);
     let mut pool: Vec<Frame> = Vec::new();
     let mut st = RunStats {
         steps: 0,
@@ -134,9 +134,10 @@ pub fn run_one(a: &Args, seed: u64, w: &mut NdWriter) -> RunStats {
     for p in crate::util::take_panics() {
         rig.events.push(json!({"t":"rig","k":"Panic","what":p}));
     }
-    for e in &rig.events {
-        w.write(e);
+    for e in rig.trace_records() {
+        w.write(&e);
     }
+    *id_base = rig.next_id_base();
     st
 }
 
@@ -151,13 +152,15 @@ pub fn main(rest: &[String]) -> i32 {
     let mut total_timers = 0;
     let mut max_round = 0;
     let t0 = std::time::Instant::now();
+    let mut id_base = 0usize;
     for r in 0..runs {
-        let st = run_one(&a, seed.wrapping_mul(1_000_003).wrapping_add(r as u64), &mut w);
+        let st = run_one(&a, seed.wrapping_mul(1_000_003).wrapping_add(r as u64), &mut w, &mut id_base);
         total_frames += st.frames;
         total_commits += st.commits.iter().sum::<usize>();
         total_timers += st.timers;
         max_round = max_round.max(st.max_round);
     }
+    w.write(&json!({"t":"end"}));
     let lines = w.lines;
     w.finish();
     println!(
